@@ -4,6 +4,7 @@ from __future__ import annotations
 
 import dataclasses
 import hashlib
+import itertools
 import json
 import random
 import warnings
@@ -63,7 +64,9 @@ class Runner:
         self.W = W
         self.N = AwareASTNode
         self.nodes: list = []          # handle i -> object (index i - 1)
-        self.extra: list = []          # nodes created inside operations (copies of children), named x1, x2, ...
+        self.extra: list = []          # nodes created inside operations that no path from a returned node names: x1, x2, ...
+        self.paths: dict[int, str] = {}  # id(obj) -> h<i>/<field><index>/... for the copies below a returned node
+        self.keep: list = []
         self.idnum: dict[str, int] = {}
         self.cidnum: dict[str, int] = {}
         self.errs = documented()
@@ -74,10 +77,22 @@ class Runner:
         for i, x in enumerate(self.nodes):
             if x is o and x is not None:
                 return f"h{i + 1}"
+        if id(o) in self.paths:
+            return self.paths[id(o)]
         for i, x in enumerate(self.extra):
             if x is o:
                 return f"x{i + 1}"
         return "?foreign"
+
+    def name_below(self, ret, nm: str):
+        """not yet named nodes below a returned node are called after their position (Legacy.tla: KidName)"""
+        for c, f, i in ret.get_child_nodes_with_field():
+            if self.name(c) != "?foreign":
+                continue
+            cn = f"{nm}/{f.name}{'' if i is None else i}"
+            self.paths[id(c)] = cn
+            self.keep.append(c)
+            self.name_below(c, cn)
 
     def canon(self, h: int) -> int:
         if not h:
@@ -90,7 +105,7 @@ class Runner:
 
     def discover(self):
         """name every node reachable from the handles (and their parents)"""
-        stack = [o for o in self.nodes if o is not None]
+        stack = [o for o in self.nodes if o is not None] + list(self.N._nodes.values())
         seen = set()
         while stack:
             o = stack.pop()
@@ -116,6 +131,7 @@ class Runner:
             if o is not None and id(o) not in seen:
                 seen.add(id(o))
                 out.append((f"h{i + 1}", o))
+        out += [(self.paths[id(o)], o) for o in self.keep]
         return out + [(f"x{i + 1}", o) for i, o in enumerate(self.extra)]
 
     def cname(self, o):
@@ -289,8 +305,12 @@ class Runner:
             det = bool(o.detached)
             par = o.parent
             try:
-                anc = [self.name(x) for x in o.ancestors()]
-                depth = o.get_depth()
+                # a node that shares its id with an ancestor can be its own parent: ancestors() then never ends
+                anc = [self.name(x) for x in itertools.islice(o.ancestors(), 65)]
+                if len(anc) == 65:
+                    anc, depth = ["?cycle"], -1
+                else:
+                    depth = o.get_depth()
             except Exception:
                 anc, depth = ["?error"], -1
             xp = []
@@ -312,12 +332,28 @@ class Runner:
                 "c": c, "p": p, "k": k, "o": 0,
                 "idc": self.idnum.setdefault(o.id, len(self.idnum)),
                 "oidc": -1 if o.original_id is None else self.idnum.setdefault(o.original_id, len(self.idnum)),
+                "id": short_id(o.id), "oid": short_id(o.original_id), "coll": short_id(o.id_collision_with),
+                "pid": short_id(getattr(o, "_parent_id", None)),
                 "det": det, "par": self.name(par), "pf": o.parent_field.name if o.parent_field else "none",
                 "pi": -1 if o.parent_index is None else o.parent_index,
                 "cidc": self.cidnum.setdefault(o.content_id, len(self.cidnum)), "cidok": cidok,
                 "anc": anc, "depth": depth, "xp": xp,
             }
         return S
+
+    def registry(self) -> dict:
+        return {short_id(i): self.name(o) for i, o in list(self.N._nodes.items())}
+
+    def probe_digest(self, op) -> str:
+        """the automatic id the library computes for a create operation's arguments, read off a detached probe
+        (the library is its own digest oracle; the probe touches nothing)"""
+        if op["op"] != "create":
+            return ""
+        try:
+            out, ret = self.apply(dict(op, mode="detached"))
+        except Exception:
+            return ""
+        return short_id(ret.id) if ret is not None else ""
 
     def double_placement_or_cycle(self) -> bool:
         """the C18 precondition: no node object at two positions below attached nodes, no cycles"""
@@ -330,6 +366,14 @@ class Runner:
                     return True
                 seen.add(id(c))
         return False
+
+
+def short_id(i):
+    """ids are sha256 digests with _<n> suffixes: 12 digits of the digest are kept"""
+    if i is None:
+        return "none"
+    head, sep, tail = i.partition("_")
+    return (head[:12] if len(head) == 64 else head) + sep + tail
 
 
 def W_pool(W, f):
@@ -377,18 +421,23 @@ def run_program(W, prog, sink: dict, strays: list):
         # with the earlier one, so that names in operations and states agree
         op = dict(op, a=R.canon(op["a"]), b=R.canon(op["b"]), kids=[R.canon(k) for k in (op["kids"] or [])])
         nreg0 = len(AwareASTNode._nodes)
+        regpre = R.registry()
+        d = R.probe_digest(op)
         outcome, ret = R.apply(op)
         if outcome.startswith("stray:"):
             strays.append({"prog": prog[: step + 1], "error": outcome})
             break
         if op["op"] in CREATING:
             R.nodes.append(ret)         # None when the operation was rejected: the handle stays unusable
+            if ret is not None:
+                R.name_below(ret, f"h{len(R.nodes)}")
         try:
             post = R.alpha()
         except RecursionError:
             break
         line = {"op": op, "outcome": outcome, "pre": pre, "post": post, "clean": clean,
-                "nregpre": nreg0, "nregpost": len(AwareASTNode._nodes)}
+                "nregpre": nreg0, "nregpost": len(AwareASTNode._nodes),
+                "regpre": regpre, "regpost": R.registry(), "nm": f"h{len(R.nodes)}", "d": d}
         hsh = hashlib.sha1(json.dumps(line, sort_keys=True).encode()).hexdigest()
         if hsh not in sink:
             line["witness"] = prog[: step + 1]
@@ -535,19 +584,80 @@ def gen_scripts(chk, maxlen, maxhandles, classes, maxkids, name, ops=None, modes
     return r.json_raw
 
 
-def monitor(chk, lines, name="monitor"):
-    """-> {line number: (outcome, set of clause names)}"""
-    f = chk.wd / f"{name}.ndjson"
-    with open(f, "w") as fh:
-        for ln in lines:
-            fh.write(json.dumps({k: v for k, v in ln.items() if k not in ("witness", "alts", "hsh")}) + "\n")
+STRIP = ("witness", "alts", "hsh")
+
+
+def trace_shards(chk, module, lines, name):
+    """run a trace specification over `lines`, split over parallel TLC processes (one worker each: the register
+    protocol needs it) -> {line number (1-based): info}"""
+    import concurrent.futures as cf
+    import shutil
+    n = len(lines)
+    if n == 0:
+        return {}
+    k = max(1, min(core.NPROC, (n + 1499) // 1500))
+    size = (n + k - 1) // k
     cfg = "INIT Init\nNEXT Next\nPOSTCONDITION Done\nCHECK_DEADLOCK FALSE\n"
-    r = tlc.run(chk.wd, "Trace_Legacy", cfg, workers=1, timeout=3000, env={"TRACE_FILE": str(f)}, heap="8g")
-    chk.note_tlc(f"Trace_Legacy/{name}", r, "trace-validation")
-    rej = {}
-    for i, info in tlc.rejected(r, len(lines), "Trace_Legacy").items():
-        rej[i] = (info[0], set(info[1]))
-    return rej
+
+    def one(j):
+        part = lines[j * size:(j + 1) * size]
+        wd = chk.wd / f"{name}-{j}"
+        if wd.exists():
+            shutil.rmtree(wd)
+        wd.mkdir()
+        for f in chk.wd.glob("*.tla"):
+            shutil.copy(f, wd / f.name)
+        fn = wd / "trace.ndjson"
+        with open(fn, "w") as fh:
+            for ln in part:
+                fh.write(json.dumps({a: b for a, b in ln.items() if a not in STRIP}) + "\n")
+        r = tlc.run(wd, module, cfg, workers=1, timeout=3000, env={"TRACE_FILE": str(fn)}, heap="3g")
+        rej = tlc.rejected(r, len(part), module)
+        shutil.rmtree(wd, ignore_errors=True)
+        return j, r, rej
+    out = {}
+    with cf.ThreadPoolExecutor(max_workers=k) as ex:
+        for j, r, rej in ex.map(one, range(k)):
+            chk.note_tlc(f"{module}/{name}/{j + 1}of{k}", r, "trace-validation")
+            for i, info in rej.items():
+                out[j * size + i] = info
+    return out
+
+
+def monitor(chk, lines, name="monitor"):
+    """LegacyMonitor.tla -> {line number: (outcome, set of clause names)}"""
+    return {i: (info[0], set(info[1])) for i, info in trace_shards(chk, "Trace_Legacy", lines, name).items()}
+
+
+MACHINE_OPS = ALLOPS
+
+
+def machine(chk, lines, name="machine"):
+    """Legacy.tla evaluated on every line -> {line number: {"conform", "partial", "diff"}} for the lines that are not
+    plainly conform (conform, and no named deviation of the model involved)"""
+    return {i: {"conform": bool(info[0]), "partial": bool(info[1]), "diff": info[2]}
+            for i, info in trace_shards(chk, "Trace_LegacyMachine", lines, name).items()}
+
+
+MC_OPS = {"create", "attach", "detach", "detach_self", "replace_prop", "replace_kids", "replace_bad", "replace_with",
+          "replace_with_none", "duplicate"}
+MC_INVARIANTS = {"C18": ["C18ChildrenAttached", "C18ParentBackLink", "C18CidFresh"],
+                 "C19": ["C19Frame", "C19EarlyErrorsClean"]}
+
+
+def mc_design(chk, pid, name, maxops, maxhandles, classes, maxkids, modes=("plain", "detached", "unique"),
+              dupmodes=("attached", "detached"), atoms=(0, 1), ops=None, emit=True, invariants=None):
+    """TLC on the machine itself (LegacyMC.tla): the property as an invariant of the design, and the witness program
+    of every transition taken"""
+    inv = MC_INVARIANTS[pid] if invariants is None else invariants
+    mod, cfg = inst.instance("I_LegacyMC", "LegacyMC",
+                             dict(MaxOps=maxops, MaxHandles=maxhandles, GenClasses=set(classes), MaxKids=maxkids,
+                                  Ops=set(ops or MC_OPS), Modes=set(modes), DupModes=set(dupmodes), Atoms=set(atoms)),
+                             invariants=inv, view="View", action_constraints=["Emit"] if emit else [])
+    (chk.wd / "I_LegacyMC.tla").write_text(mod)
+    r = tlc.run(chk.wd, "I_LegacyMC", cfg, workers=core.NPROC, timeout=3000, heap="8g")
+    chk.note_tlc(f"LegacyMC/{name}", r, "mc+gen" if emit else "mc")
+    return r
 
 
 def collect(chk, results):
@@ -561,18 +671,37 @@ def collect(chk, results):
 
 def run(chk: core.Check, pid: str, classify):
     quick = chk.tier == "quick"
-    raws = gen_scripts(chk, 3, 3, ["LLeaf", "LUnary", "LMany"], 2, "len3")
-    if not quick:
-        raws += gen_scripts(chk, 4, 3, ["LLeaf", "LUnary", "LMany"], 2, "len4")
-        raws += gen_scripts(chk, 3, 3, ["LLeaf", "LSub", "LOpt", "LList"], 2, "len3-b")
+    # (a) the design: TLC on Legacy.tla itself, the property as invariants (deviations as explicit guards), and one
+    #     witness program per transition of the model
+    raws = []
+    ALL3 = ("plain", "detached", "unique")
+    # (name, MaxOps, MaxHandles, classes, MaxKids, modes, atoms, ops (None = all modelled), dup modes)
+    if quick:
+        mcs = [("abc-4", 4, 3, ["LLeaf", "LUnary", "LMany"], 2, ALL3, (0, 1), None, None),
+               ("chains-5", 5, 4, ["LLeaf", "LUnary"], 1, ("plain", "detached"), (0,), None, None),
+               ("opt-list-4", 4, 3, ["LLeaf", "LOpt", "LList"], 2, ("plain", "detached"), (0,), None, None),
+               # long histories over few operations: detach / re-attach / duplicate chains; replacements inside tuples
+               ("focus-detach-6", 6, 5, ["LLeaf", "LUnary"], 1, ("plain",), (0,), {"create", "detach", "attach", "duplicate"}, ("attached",)),
+               ("focus-replace-5", 5, 4, ["LLeaf", "LMany"], 2, ("plain",), (0,),
+                {"create", "replace_with", "replace_with_none", "detach"}, ("attached",))]
     else:
-        raws += gen_scripts(chk, 4, 4, ["LLeaf", "LUnary"], 1, "len4-small")
-    # focused families: long programs over few operations (detach / re-attach / duplicate chains; replacements in tuples)
-    raws += gen_scripts(chk, 6, 5, ["LLeaf", "LUnary"], 1, "focus-detach", ops={"create", "detach", "attach", "duplicate"},
-                        modes=("plain",), dupmodes=("attached",), atoms=(0,))
-    raws += gen_scripts(chk, 5 if quick else 6, 4, ["LLeaf", "LMany"], 2, "focus-replace",
-                        ops={"create", "replace_with", "replace_with_none", "detach"}, modes=("plain",), atoms=(0,))
-    # user transformations: visitors (work on a detached clone, then replace_with) and transformers (in place, bottom-up)
+        mcs = [("abc-4", 4, 4, ["LLeaf", "LUnary", "LMany"], 2, ALL3, (0, 1), None, None),
+               ("chains-6", 6, 5, ["LLeaf", "LUnary"], 1, ("plain", "detached"), (0,), None, None),
+               ("opt-list-5", 5, 4, ["LLeaf", "LSub", "LOpt", "LList"], 2, ("plain", "detached"), (0,), None, None),
+               ("focus-detach-7", 7, 6, ["LLeaf", "LUnary"], 1, ("plain",), (0,), {"create", "detach", "attach", "duplicate"}, ("attached",)),
+               ("focus-replace-6", 6, 4, ["LLeaf", "LMany"], 2, ("plain",), (0,),
+                {"create", "replace_with", "replace_with_none", "detach"}, ("attached",))]
+    for name, maxops, maxh, classes, maxkids, modes, atoms, ops, dupmodes in mcs:
+        r = mc_design(chk, pid, name, maxops, maxh, classes, maxkids, modes=modes, atoms=atoms, ops=ops,
+                      dupmodes=dupmodes or ("attached", "detached"))
+        if r.violated:
+            chk.tlc_violation("LegacyMC-" + name, r)
+        else:
+            tlc.require_clean(r, "LegacyMC/" + name)
+        raws += r.json_raw
+    chk.exhaustive = True
+    # (b) user transformations (visitors work on a detached clone and then replace_with; transformers work in place,
+    #     bottom-up): not modelled by the machine; all programs of LegacyScripts.tla, judged by the monitor
     if quick:
         raws += gen_scripts(chk, 4, 4, ["LLeaf", "LMany"], 2, "focus-transform",
                             ops={"create", "tvisit", "texec"}, modes=("plain",), atoms=(0,))
@@ -595,17 +724,26 @@ def run(chk: core.Check, pid: str, classify):
     s2, st2 = collect(chk, core.parallel(_exec_random, seeds, {"length": 12}, chunk=100))
     merge_sink(sink, s2)
     strays += st2
-    lines = list(sink.values())
-    # only the transitions this property judges
-    if pid == "C18":
-        lines = [ln for ln in lines if ln["outcome"] == "ok" and ln["clean"]]
-    else:
-        lines = [ln for ln in lines if ln["outcome"] != "ok" and ln["clean"]]
-    chk.bounds = {"programs_from_TLC": len(raws), "random_programs": len(seeds), "distinct_transitions_judged": len(lines)}
     for s in strays[:50]:
         chk.add(core.Violation("stray-exception", {"m": "legacy-program", "prog": s["prog"]}, s["error"]))
-    rej = monitor(chk, lines)
-    chk.traces_accepted += len(lines) - len(rej)
+    judge(chk, pid, classify, list(sink.values()), len(raws), len(seeds))
+
+
+def judge(chk, pid, classify, alllines, nprogs=0, nrandom=0, name=""):
+    """the verdicts of one property over a set of observed transitions"""
+    mine = [ln for ln in alllines if (ln["outcome"] == "ok") == (pid == "C18")]
+    # code -> spec, the machine: every transition of this kind (whatever the history), exact next state
+    mlines = [ln for ln in mine if ln["op"]["op"] in MACHINE_OPS]
+    mach = machine(chk, mlines, "machine" + name)
+    mverdict = {mlines[i - 1]["hsh"]: v for i, v in mach.items()}
+    nonconform = [mlines[i - 1] for i, v in sorted(mach.items()) if not v["conform"]]
+    # code -> spec, the property: transitions from states reached by successful operations
+    lines = [ln for ln in mine if ln["clean"]]
+    chk.bounds.update({"programs_from_TLC": nprogs, "random_programs": nrandom, "distinct_transitions_judged": len(lines),
+                       "distinct_transitions_checked_against_the_machine": len(mlines)})
+    rej = monitor(chk, lines, "monitor" + name)
+    chk.traces_accepted += len(lines) - len(rej) + len(mlines) - len(nonconform)
+    chk.evaluations += len(lines) + len(mlines)
     for ln in lines:
         if len(ln["witness"]) >= 2:
             chk.nontrivial.add(hash(json.dumps(ln["op"], sort_keys=True) + ln["outcome"] + json.dumps(ln["pre"], sort_keys=True)))
@@ -619,12 +757,22 @@ def run(chk: core.Check, pid: str, classify):
         if wit is None:
             consequences += 1       # every history seen had broken the invariants before this step: the first break is reported
             continue
+        mv = mverdict.get(ln["hsh"], {"conform": True, "partial": False}) if ln["op"]["op"] in MACHINE_OPS else None
         for cl in sorted(clauses):
             v = core.Violation(f"{ln['op']['op']}->{outcome}:{cl}", {"m": "legacy-program", "prog": wit},
                                f"program {json.dumps(wit)[:400]}: after {ln['op']['op']} ({outcome}) clause {cl} fails")
-            v.finding = classify(ln, outcome, cl)
+            v.finding = classify(ln, outcome, cl, mv)
             chk.add(v)
     chk.notes["transitions_after_an_earlier_break_not_reported_again"] = consequences
+    # transitions on which the library and Legacy.tla part ways without the property's clauses failing on what was
+    # observed are not a verdict on the property: they are counted and shown, the exit code is not affected
+    judged_bad = {lines[i - 1]["hsh"] for i in rej}
+    div = [ln for ln in nonconform if ln["hsh"] not in judged_bad]
+    chk.notes["model_divergences"] = len(div)
+    if div:
+        ln = div[0]
+        print(f"NOTE property={pid} {len(div)} observed transitions differ from Legacy.tla without breaking a clause of the "
+              f"property; first: {json.dumps(ln['witness'])[:300]} diff {json.dumps(mverdict[ln['hsh']]['diff'])[:300]}")
 
 
 def first_sound_history(ln, bad):
@@ -643,20 +791,13 @@ def replay(chk, data, pid, classify):
     run_program(W, data["case"]["prog"], sink, strays)
     for s in strays:
         chk.add(core.Violation("stray-exception", data["case"], s["error"]))
-    lines = [ln for ln in sink.values() if ln["clean"] and ((ln["outcome"] == "ok") == (pid == "C18"))]
-    if not lines:
-        return
-    rej = monitor(chk, lines, "replay")
-    bad = {lines[i - 1]["hsh"] for i in rej}
-    for i, (outcome, clauses) in rej.items():
-        ln = lines[i - 1]
-        if pid == "C18" and first_sound_history(ln, bad) is None:
-            continue
-        for cl in clauses:
-            v = core.Violation(f"{ln['op']['op']}->{outcome}:{cl}", data["case"], "still violated")
-            v.finding = classify(ln, outcome, cl)
-            if v.finding is None:
-                chk.add(v)
+    sub = core.Check.__new__(core.Check)
+    sub.__dict__.update(chk.__dict__)
+    sub.violations = []
+    judge(sub, pid, classify, list(sink.values()), name="-replay")
+    for v in sub.violations:
+        if v.finding is None:
+            chk.add(core.Violation(v.clause, data["case"], "still violated"))
 
 
 # ---------------------------------------------------------------------------------------------
